@@ -98,10 +98,13 @@ func (t *exprNode) eval(leaves []int64) (*big.Int, string) {
 		return big.NewInt(leaves[t.leaf]), "ok"
 	}
 	a, sa := t.l.eval(leaves)
+	b, sb := t.r.eval(leaves)
+	if sa == "overflow" || sb == "overflow" {
+		return nil, "overflow" // wrapped arithmetic is not modelled (not even whether a divisor becomes zero)
+	}
 	if sa != "ok" {
 		return nil, sa
 	}
-	b, sb := t.r.eval(leaves)
 	if sb != "ok" {
 		return nil, sb
 	}
@@ -182,6 +185,9 @@ func c06Trees(maxOps int, lits []int64, name string) *core.Scenario {
 			srcs := []string{""}
 			var singles []item
 			for _, it := range items {
+				if it.status == "overflow" {
+					continue // a value or intermediate value leaves int64: outside the model, not assembled
+				}
 				if it.status == "div0" {
 					singles = append(singles, it)
 					srcs = append(srcs, "\tDD "+it.text+"\n")
